@@ -123,3 +123,11 @@ def rhs_canon(a):
 
 def fmt(item):
     return repr(item)[:400]
+
+
+import re as _re
+
+
+def base(name):
+    """Name with the '#k' uniquifying suffixes removed (for rules that key on the variable name)."""
+    return _re.sub(r'#\d+', '', name)
